@@ -264,6 +264,10 @@ impl Circuit {
                         is_slow,
                     });
                 }
+                if self.state == CircuitState::HalfOpen {
+                    // Trial calls are counted on their own: they must not expire with the window
+                    self.success_count += 1;
+                }
             }
         }
 
@@ -301,11 +305,7 @@ impl Circuit {
 
         match self.state {
             CircuitState::HalfOpen => {
-                let success_count = match config.sliding_window_type {
-                    SlidingWindowType::CountBased => self.success_count,
-                    SlidingWindowType::TimeBased => self.time_based_stats().2,
-                };
-                if success_count >= config.permitted_calls_in_half_open {
+                if self.success_count >= config.permitted_calls_in_half_open {
                     self.transition_to(CircuitState::Closed, config);
                 }
             }
